@@ -73,9 +73,13 @@ Definition map_range_exceptions : list exception_entry := [
    - envs.LoadTimezone refuses that name before it calls time.LoadLocation (the four sites that take a zone name from a
      contact's message, a flow expression or a modifier go through it);
    - envs.ReadEnvironment and flows.ReadContact read host-stored JSON: known finding
-     process-env:stored-timezone-local (a host must not supply the name "Local"). *)
+     process-env:stored-timezone-local (a host must not supply the name "Local").
+   time.Unix returns a time in the zone of the process: DateTimeFromEpoch moves it at once with .In(env.Timezone()), so the
+   instant and the zone of the result are functions of the arguments and the environment.
+   Each entry covers ONE call (one_call_per_allowed). *)
 Definition ambient_allowed : list (string * string * string) :=
-  [("envs", "LoadTimezone", "time.LoadLocation");
+  [("excellent/functions", "DateTimeFromEpoch", "time.Unix");
+   ("envs", "LoadTimezone", "time.LoadLocation");
    ("envs", "ReadEnvironment", "time.LoadLocation");
    ("flows", "ReadContact", "time.LoadLocation")].
 
